@@ -272,6 +272,29 @@ func runN(c *kit.Ctx, r *kit.Rand, idx int) {
 	strict := r.Bool()
 	ctx := options.ToContext(context.Background(), test.Options(test.OptionsFields{FeatureGates: test.FeatureGates{ReservedCapacity: lo.ToPtr(gate)}}))
 	tpls := genCatalogue(r, r.Chance(2, 3), 2)
+	// a quarter of the cases start with the release / re-acquire skeleton: c0 takes r1+r2, c1 only gets r2,
+	// c0 narrows to z2 and releases r1, c1 re-acquires r1
+	type scripted struct {
+		claim int
+		pod   jReq
+	}
+	var script []scripted
+	if idx%4 == 0 {
+		sk := jIT{Name: "i1", Offs: []jOff{{CT: "reserved", Zone: "z1", RID: "r1", Avail: true, Cap: 1}, {CT: "reserved", Zone: "z2", RID: "r2", Avail: true, Cap: 2}, {CT: "on-demand", Zone: "z1", Avail: true}}}
+		for i := range tpls {
+			for j := range tpls[i].ITs {
+				for k := range tpls[i].ITs[j].Offs { // keep the skeleton's reservations scarce everywhere
+					if o := &tpls[i].ITs[j].Offs[k]; o.RID == "r1" || o.RID == "r2" {
+						o.RID = "r3"
+					}
+				}
+			}
+		}
+		tpls[0].Req = jReq{}
+		tpls[0].ITs = append([]jIT{sk}, lo.Filter(tpls[0].ITs, func(it jIT, _ int) bool { return it.Name != "i1" })...)
+		only := []string{"i1"}
+		script = []scripted{{-1, jReq{ITs: only}}, {-1, jReq{ITs: only}}, {0, jReq{Zones: []string{"z2"}}}, {1, jReq{}}}
+	}
 	cl := kit.NewClient(interceptor.Funcs{})
 	cp := fake.NewCloudProvider()
 	clk := clock.NewFakeClock(time.Unix(1_700_000_000, 0))
@@ -309,11 +332,24 @@ func runN(c *kit.Ctx, r *kit.Rand, idx int) {
 		op := nop{Pod: genReq(r, true)}
 		var nc *sched.NodeClaim
 		k := len(claims)
-		if len(claims) > 0 && r.Chance(3, 5) {
+		useScript := i < len(script) && (script[i].claim < len(claims))
+		if useScript {
+			op.Pod = script[i].pod
+		}
+		if useScript && script[i].claim >= 0 {
+			k = script[i].claim
+			nc = claims[k]
+		} else if !useScript && len(claims) > 0 && r.Chance(3, 5) {
 			k = r.Intn(len(claims))
 			nc = claims[k]
+			if r.Chance(1, 3) {
+				op.Pod = jReq{} // does not narrow: the claim may re-acquire what others released
+			}
 		} else {
 			t := r.Intn(len(templates))
+			if useScript {
+				t = 0
+			}
 			op.New = &t
 			nc = sched.NewNodeClaim(templates[t], topo, []sched.DaemonOverheadGroup{{InstanceTypes: itMap[tpls[t].Pool], HostPortUsage: scheduling.NewHostPortUsage()}}, itMap[tpls[t].Pool], rm, lo.Ternary(strict, sched.ReservedOfferingModeStrict, sched.ReservedOfferingModeFallback))
 		}
